@@ -54,21 +54,40 @@ fn xs(s: &mut u64) -> u64 {
     *s
 }
 
+fn announce(t: &mut TTable, c: Cid) {
+    let e = t.fired.entry(c).or_insert((0, 0));
+    e.0 += 1;
+    e.1 += 1;
+}
+fn retire(t: &mut TTable, c: Cid, n: u32) {
+    if let Some(e) = t.fired.get_mut(&c) {
+        e.1 = e.1.saturating_sub(n);
+    }
+}
+
 fn worker(sh: Arc<TShared>, mut rng: u64) {
-    let mut stale: Vec<Waker> = vec![];
+    let mut stale: Vec<(Cid, Waker)> = vec![];
     let mut t = sh.t.lock().unwrap();
     loop {
         if !t.wakers.is_empty() {
             let i = (xs(&mut rng) % t.wakers.len() as u64) as usize;
-            let (_cid, wk) = t.wakers.swap_remove(i);
+            let (cid, wk) = t.wakers.swap_remove(i);
             t.in_flight += 1;
+            // C16 bookkeeping: mark the children whose wakers are about to be invoked (before the call, under the lock)
+            announce(&mut t, cid);
+            let restale_pick = if stale.is_empty() { None } else { Some((xs(&mut rng) % stale.len() as u64) as usize) };
+            let restale_now = restale_pick.is_some() && xs(&mut rng) % 3 == 0;
+            let restale_cid = restale_pick.map(|i| stale[i].0).unwrap_or(0);
+            if restale_now {
+                announce(&mut t, restale_cid);
+            }
             drop(t);
             for _ in 0..(xs(&mut rng) % 3) {
                 std::thread::yield_now();
             }
             let mode = xs(&mut rng) % 6;
-            let restale = !stale.is_empty() && xs(&mut rng) % 3 == 0;
-            let si = if stale.is_empty() { 0 } else { (xs(&mut rng) % stale.len() as u64) as usize };
+            let restale = restale_now;
+            let si = restale_pick.unwrap_or(0);
             if !cfg!(miri) && sh.rdv.load(Ordering::Relaxed) {
                 let g0 = sh.go.load(Ordering::Acquire);
                 sh.about.fetch_add(1, Ordering::Release);
@@ -81,26 +100,35 @@ fn worker(sh: Arc<TShared>, mut rng: u64) {
             }
             IN_WAKE.store(true, Ordering::Relaxed);
             let r = std::panic::catch_unwind(std::panic::AssertUnwindSafe(|| {
+                // (the C16 mark is renewed before EVERY single invocation: the task may poll the child in between)
+                let mark = |c: Cid| {
+                    announce(&mut sh.t.lock().unwrap(), c);
+                };
                 match mode {
                     0 => wk.clone().wake(),
                     1 => {
                         wk.wake_by_ref();
+                        mark(cid);
                         wk.wake_by_ref();
                     }
                     _ => wk.wake_by_ref(),
                 }
                 if restale {
-                    stale[si].wake_by_ref();
+                    stale[si].1.wake_by_ref();
                 }
             }));
             IN_WAKE.store(false, Ordering::Relaxed);
             PROGRESS.fetch_add(1, Ordering::Relaxed);
             if stale.len() < 6 {
-                stale.push(wk);
+                stale.push((cid, wk));
             } else {
-                stale[si] = wk;
+                stale[si] = (cid, wk);
             }
             t = sh.t.lock().unwrap();
+            retire(&mut t, cid, 1 + (mode == 1) as u32);
+            if restale {
+                retire(&mut t, restale_cid, 1);
+            }
             t.in_flight -= 1;
             t.fires += 1 + (mode == 1) as u64;
             if restale {
@@ -121,8 +149,10 @@ fn worker(sh: Arc<TShared>, mut rng: u64) {
     // the combinator is gone by now: wakers that outlive it must stay harmless, from any thread
     let mut after = 0u64;
     let mut panics = vec![];
-    for wk in stale {
+    for (cid, wk) in stale {
+        announce(&mut sh.t.lock().unwrap(), cid);
         let r = std::panic::catch_unwind(std::panic::AssertUnwindSafe(|| wk.wake()));
+        retire(&mut sh.t.lock().unwrap(), cid, 1);
         after += 1;
         if let Err(p) = r {
             panics.push(panic_msg(&p));
@@ -396,6 +426,13 @@ pub fn run_case(p: &Profile, case: &CaseA, case_seed: u64, nthreads: usize) -> E
 
 pub fn run(prop: &str, thorough: bool, case_seed: u64) -> ExecOut {
     let mut p = profile(thorough, prop == "C02");
+    match prop {
+        // selective polling / group behaviour under wake-ups from other threads
+        "C16" => p.fams = vec![Fam::Join, Fam::TryJoin, Fam::Merge, Fam::Zip, Fam::FGroup, Fam::SGroup],
+        "C11" => p.fams = vec![Fam::FGroup],
+        "C12" => p.fams = vec![Fam::SGroup],
+        _ => {}
+    }
     if prop == "C17" {
         // fairness under wake-ups from other threads: merges with one or two always-ready inputs
         p.fams = vec![Fam::Merge];
